@@ -20,7 +20,7 @@ CONFIG = {
     "shards": {"quick": 8, "thorough": 16},
     "budget_s": {"quick": 120, "thorough": 1500},
     "rule": ("Hypothesis, four sub-checks. tree: shape (1-8 leaves quick / <= 40 thorough; polytomies, unifurcations, "
-             "labels, every length pattern, three rootings, weight, namespace history with unused/removed taxa) decorated "
+             "labels, taxa on internal nodes, every length pattern, three rootings, weight, namespace history with unused/removed taxa) decorated "
              "with static annotations (scalar and list values, sub-annotations), attribute-bound annotations (own custom "
              "attributes, built-in label/length/weight, owner = the node's edge), comments, extra attributes (scalars, "
              "lists, references to nodes of the same tree) on tree / nodes / edges / taxa / namespace, with or without "
@@ -38,7 +38,8 @@ CONFIG = {
                                  "2-tree list, standard matrix and namespace",
                         "thorough": "same, with 3 selector values per mutation"},
     "assumptions": [
-        "taxon labels are distinct (also case-insensitively) strings; every leaf carries a taxon",
+        "taxon labels are distinct (also case-insensitively) strings; every leaf carries a taxon, internal nodes may carry "
+        "one too (each taxon on at most one node of a tree), and the namespace may hold taxa that sit on no node",
         "copy.copy / clone(0) of a Tree is asserted namespace-scoped (Tree.__copy__); for TreeList / CharacterMatrix / "
         "TaxonNamespace clone(0) / copy.copy is documented shallow, so only 'new container with the same members, "
         "independent annotations' is asserted there",
@@ -98,8 +99,28 @@ def decor(draw, builtin=(), refs=False, p=3, owner_edge=False):
     return d
 
 
+def place_internal_taxa(draw, spec, pool):
+    """Put some of the namespace's spare taxa (indices in `pool`, each at most once) on internal nodes of the spec."""
+    inner = [s for s in shapes.spec_nodes(spec) if s["ch"]]
+    pool = list(pool)
+    if not inner or not pool:
+        return 0
+    k = min(len(inner), len(pool)) - draw(st.integers(0, min(len(inner), len(pool))))
+    if k == 0:
+        return 0
+    where = draw(st.permutations(list(range(len(inner)))))[:k]
+    which = draw(st.permutations(pool))[:k]
+    for w, t in zip(where, which):
+        inner[w]["t"] = t
+    return k
+
+
+def spare_taxa(hist, n):
+    return [i for i in range(n, n + hist["extra"]) if i not in hist["removed"]]
+
+
 @st.composite
-def tree_objects(draw, max_leaves, min_leaves=1, n_taxa=None):
+def tree_objects(draw, max_leaves, min_leaves=1, n_taxa=None, internal_pool=()):
     hi = max_leaves if n_taxa is None else min(max_leaves, n_taxa)
     sl = draw(shapes.with_lengths(shapes.shapes(min_leaves=min(min_leaves, hi), max_leaves=hi, max_arity=4, unifurcations=True),
                                   root_length=True))
@@ -120,9 +141,13 @@ def tree_objects(draw, max_leaves, min_leaves=1, n_taxa=None):
            "tdec": draw(decor(builtin=("label", "weight"), refs=True)), "ndec": ndec, "edec": edec,
            "enc": draw(st.sampled_from([None, None, {"mutable": False, "maps": False}, {"mutable": False, "maps": True},
                                         {"mutable": True, "maps": False}]))}
+    if n_taxa is not None:
+        place_internal_taxa(draw, spec, internal_pool)
     if n_taxa is None:
         n = shapes.n_leaves(spec)
-        obj["hist"] = draw(shapes.namespace_history(n, max_extra=2))
+        obj["hist"] = draw(shapes.namespace_history(n, max_extra=3))
+        # taxa on internal nodes; the remaining spare taxa of the namespace sit on no node at all
+        place_internal_taxa(draw, spec, spare_taxa(obj["hist"], n))
         obj["nslabel"] = draw(st.sampled_from([None, "taxa"]))
         obj["nsdec"] = draw(decor(builtin=("label",), p=1))
         k_dec = draw(st.integers(0, 2))
@@ -200,13 +225,14 @@ def tree_cases(draw, max_leaves, route=None):
 def list_cases(draw, max_leaves, route=None):
     n = draw(st.integers(1, max_leaves))
     k = 3 - draw(st.integers(0, 3))
-    trees = [draw(tree_objects(max_leaves, n_taxa=n)) for _ in range(k)]
-    obj = {"kind": "treelist", "n": n, "hist": draw(shapes.namespace_history(n, max_extra=2)), "trees": trees,
+    hist = draw(shapes.namespace_history(n, max_extra=3))
+    trees = [draw(tree_objects(max_leaves, n_taxa=n, internal_pool=spare_taxa(hist, n))) for _ in range(k)]
+    obj = {"kind": "treelist", "n": n, "hist": hist, "trees": trees,
            "label": draw(st.sampled_from([None, "trees"])), "ldec": draw(decor(builtin=("label",), refs=True)),
            "xdec": [[draw(st.integers(0, n - 1)), draw(decor(p=2))] for _ in range(draw(st.integers(0, 1)))]}
     route = route or draw(st.sampled_from(LIST_ROUTES))
     case = {"obj": obj, "route": route, "mut": draw(muts(LIST_MUTS)), "tmut": draw(muts(TREE_MUTS)),
-            "newtree": draw(tree_objects(min(4, max_leaves), n_taxa=n))}
+            "newtree": draw(tree_objects(min(4, max_leaves), n_taxa=n, internal_pool=spare_taxa(hist, n)))}
     if route == "ctor_ns":
         case["foreign"] = draw(foreign_ns(n))
     return case
@@ -522,6 +548,14 @@ def identity_clause(ctx, kind, route, src, cp, allowed_root, tag, skip=(), must_
     bad = common - allowed
     ctx.check(not bad, "no_mutable_part_shared_beyond_documented_depth", "C12.identity:%s:%s" % (kind, route),
               lambda: "%s: %s" % (tag, describe_shared(bad, S, C)))
+    if must_share:
+        # scoped depth: the copy holds no Taxon (or namespace) object other than the shared ones
+        from dendropy.datamodel import taxonmodel
+        ok_ids = set(id(x) for x in must_share)
+        strangers = [x for x, _ in C.values() if isinstance(x, (taxonmodel.Taxon, taxonmodel.TaxonNamespace)) and id(x) not in ok_ids and x is not cp]
+        ctx.check(not strangers, "scoped_copy_holds_only_the_shared_taxa", "C12.shared:%s:%s" % (kind, route),
+                  lambda: "%s: the copy reaches %d taxon / namespace objects that are not the source namespace or its members, e.g. %r at copy%s" % (
+                      tag, len(strangers), strangers[0], C[id(strangers[0])][1][6:]))
     missing = [x for x in must_share if id(x) not in C]
     ctx.check(not missing, "documented_shared_parts_are_shared", "C12.shared:%s:%s" % (kind, route),
               lambda: "%s: %d documented-shared objects (namespace / taxa) are not reachable from the copy, e.g. %r" % (
@@ -1308,7 +1342,7 @@ def _leaf(t, length):
 FIXED_TREE = {
     "kind": "tree",
     "spec": {"t": None, "lab": "root", "len": None, "ch": [
-        {"t": None, "lab": "n1", "len": 0.5, "ch": [_leaf(0, 1.0), _leaf(1, 2.0)]},
+        {"t": 4, "lab": "n1", "len": 0.5, "ch": [_leaf(0, 1.0), _leaf(1, 2.0)]},
         {"t": None, "lab": None, "len": 0.25, "ch": [_leaf(2, 1.0), _leaf(3, 1.5)]}]},
     "lenpat": "dyadic", "rooted": True, "label": "fixed", "weight": 2.0, "elabels": [[2, "e2"], [4, "e4"]], "length_type": "float",
     "tdec": {"ann": [["color", "red"], ["size", [1, 2]]], "subann": [[0, "note", "sub"]], "bound": [["b0", [3, 4], False], ["weight", None, False]],
@@ -1318,7 +1352,7 @@ FIXED_TREE = {
              [2, {"ann": [["note", {"k": 1}]], "extra": [["x1", [1, 2]]]}]],
     "edec": [[4, {"ann": [["x", 0.5]], "bound": [["length", None, False]], "comments": ["edge comment"]}]],
     "enc": {"mutable": False, "maps": True},
-    "hist": {"extra": 1, "order": [4, 0, 1, 2, 3], "removed": [], "sort": None},
+    "hist": {"extra": 2, "order": [4, 0, 1, 5, 2, 3], "removed": [], "sort": None},
     "nslabel": "taxa", "nsdec": {"ann": [["color", 1]], "bound": [["label", None, False]]},
     "xdec": [[0, {"ann": [["size", 3]], "bound": [["b0", 1, False]]}]],
 }
